@@ -6,10 +6,11 @@ CONSTANTS
   T100 = 1000
   Ex0 = {}
   Facts = {"A", "B"}
-  MaxOps = 2
+  MaxOps = 3
   StartAll = TRUE
   StartSuf = {TRUE}
   EvpAny = FALSE
+  SymFirst = TRUE
   WithSetLast = FALSE
   Guard = "before"
 VIEW View
